@@ -275,13 +275,20 @@ func (e *Ev) evBuiltin(x *ast.CallExpr, name string) Val {
 			}
 			if en, ok := refLikeElem(u.Elem()); ok && !e.contract {
 				// make([]*T, 0, cap): an empty slice of references (the capacity is not modelled)
+				n := Term("0")
 				if len(x.Args) >= 2 {
-					if n := e.intOf(e.ev(x.Args[1]), x.Args[1]); n != "0" {
-						e.unsupp(x, "make([]*T, n) with n != 0")
-					}
+					n = e.intOf(e.ev(x.Args[1]), x.Args[1])
 				}
 				if len(x.Args) >= 3 {
-					e.ev(x.Args[2])
+					c := e.intOf(e.ev(x.Args[2]), x.Args[2])
+					if n != "0" {
+						e.safety("make", "makecap", x.Pos(), sLe(n, c), "make: len does not exceed cap")
+					}
+				}
+				if n != "0" {
+					// make([]*T, n, cap): n nil references
+					e.safety("make", "makelen", x.Pos(), sLe("0", n), "make: len is not negative")
+					return VRefs{Arr: "((as const (Array Int Int)) 0)", N: n, Elem: en}
 				}
 				return VRefs{Arr: e.fx.declare(sortArr, "mk_refs"), N: "0", Elem: en}
 			}
